@@ -383,6 +383,6 @@ def run_events(spec):
 
 SUBCHECKS = [
     Sub('cache_seq', lambda tier: cache_specs(tier, False), run_cache_seq, quick=1500, thorough=60000),
-    Sub('cache_sched', lambda tier: cache_specs(tier, True), run_cache_sched, quick=2000, thorough=100000),
+    Sub('cache_sched', lambda tier: cache_specs(tier, True), run_cache_sched, quick=6000, thorough=100000),
     Sub('events', event_specs, run_events, quick=3000, thorough=100000),
 ]
